@@ -182,14 +182,12 @@ def r15(ctx):
         f"{CH}::activate_initial_commitment": "initial activation, guarded by next == 0 (R1.8)",
     }, "EnforcementState::set_next_holder_commit_num", floor=2)
     R.who_may_call(ctx, "R1.5", lambda n: n == f"{VAL}::set_next_holder_commit_num", {
-        f"{CH}::advance_holder_commitment_state": "the only advance path",
+        f"{CH}::revoke_previous_holder_commitment": "the only advance path (its private helper advance_holder_commitment_state is "
+                                                    "transparent: always analysed as part of its caller)",
+        f"{CH}::advance_holder_commitment": "test utility wrapper (cfg test_utils)",
         "<lightning_signer::policy::onchain_validator::OnchainValidator as lightning_signer::policy::validator::Validator>::set_next_holder_commit_num":
             "delegating wrapper",
     }, "Validator::set_next_holder_commit_num", floor=1)
-    R.who_may_call(ctx, "R1.5", lambda n: n == f"{CH}::advance_holder_commitment_state", {
-        f"{CH}::revoke_previous_holder_commitment": "revocation entry point",
-        f"{CH}::advance_holder_commitment": "test utility wrapper (cfg test_utils)",
-    }, "Channel::advance_holder_commitment_state", floor=1)
     # test setters are reachable only from test utilities
     for b, bi, c in R.call_sites(ctx.prog, lambda n: n.endswith("set_next_holder_commit_num_for_testing")):
         on = R.owner_name(ctx.prog, b)
@@ -374,8 +372,10 @@ def r18(ctx):
                      "initial activation only from next_holder_commit_num == 0")
     b = ctx.prog.fn(f"{CH}::revoke_previous_holder_commitment")
     fv = fnview(ctx, b)
-    adv = R.call_blocks(fv, lambda n: n == f"{CH}::advance_holder_commitment_state")
-    ctx.floor("R1.8", "advance call in revoke_previous_holder_commitment", len(adv), 1)
+    # the advance = the checked Validator::set_next_holder_commit_num call (the private helper advance_holder_commitment_state
+    # is transparent, i.e. analysed as part of this function)
+    adv = R.call_blocks(fv, lambda n: n == f"{VAL}::set_next_holder_commit_num")
+    ctx.floor("R1.8", "advance (Validator::set_next_holder_commit_num) in revoke_previous_holder_commitment", len(adv), 1)
     for bi, ln, c in adv:
         info = fv.expr(c.args[3])
         sigs = fv.expr(c.args[4])
@@ -385,28 +385,24 @@ def r18(ctx):
         ctx.ob("R1.8", ok, f"{b.name}/advance/info-from-next",
                f"advance uses info `{render(info)[:120]}` / sigs `{render(sigs)[:80]}` not taken from "
                f"next_holder_commit_info", where=f"{b.file}:{ln}", sample=render(info)[:120])
-        ctx.ob("R1.8", render(strip_ref(num)) == "new_current_commitment_number",
-               f"{b.name}/advance/number",
-               f"advance called with `{render(num)}` instead of the requested number", where=f"{b.file}:{ln}")
+        lin = atoms.linear(num)
+        okn = lin[1] == 1 and list(lin[0].values()) == [1] and list(lin[0])[0][0] == "new_current_commitment_number"
+        ctx.ob("R1.8", okn, f"{b.name}/advance/number",
+               f"advance sets next_holder_commit_num to `{render(num)}` (expected new_current_commitment_number + 1)",
+               where=f"{b.file}:{ln}", sample=render(num))
         # advance only when n == next and the stored info is present
         R.scenario_refused(ctx, "R1.8", b,
                            ["new_current_commitment_number != EnforcementState.next_holder_commit_num"],
                            [(bi, ln)], key=f"{b.name}/advance/only-next",
                            what="revoke_previous_holder_commitment can advance the counter for a number "
                                 "other than next_holder_commit_num", depth=0)
-    # inside advance_holder_commitment_state the setter gets n+1 and the secret release follows its Ok
-    b2 = ctx.prog.fn(f"{CH}::advance_holder_commitment_state")
-    fv2 = fnview(ctx, b2)
-    for bi, ln, c in R.call_blocks(fv2, lambda n: n == f"{VAL}::set_next_holder_commit_num"):
-        e = fv2.expr(c.args[2])
-        lin = atoms.linear(e)
-        ok = lin[1] == 1 and list(lin[0].values()) == [1] and list(lin[0])[0][0] == "new_current_commitment_number"
-        ctx.ob("R1.8", ok, f"{b2.name}/setter-arg",
-               f"advance sets next_holder_commit_num to `{render(e)}` (expected new_current_commitment_number + 1)",
-               where=f"{b2.file}:{ln}", sample=render(e))
-    rel = [(bi, ln) for bi, ln, c in R.call_blocks(fv2, lambda n: n == f"{CH}::release_commitment_secret")]
-    R.must_pass_guard(ctx, "R1.8", b2, rel, lambda n: n == f"{VAL}::set_next_holder_commit_num",
-                      "Validator::set_next_holder_commit_num", "secret release in advance", depth=0)
+    # the secret release on the advancing path follows the Ok of the setter
+    advb = {bi for bi, _, _ in adv}
+    rel = [(bi, ln) for bi, ln, c in R.call_blocks(fv, lambda n: n == f"{CH}::release_commitment_secret")
+           if any(bi in fv.reach(a) for a in advb)]
+    ctx.floor("R1.8", "secret release after the advance", len(rel), 1)
+    R.must_pass_guard(ctx, "R1.8", b, rel, lambda n: n == f"{VAL}::set_next_holder_commit_num",
+                      "Validator::set_next_holder_commit_num", "secret release after the advance", depth=0)
     # Channel::release_commitment_secret discloses n-1 through the guarded getter only
     b3 = ctx.prog.fn(f"{CH}::release_commitment_secret")
     fv3 = fnview(ctx, b3)
